@@ -64,7 +64,7 @@ def cli(ctx):
             kinds[nid] = "first block of standard output dropped"
             corrupted.append(c)
         c = copy.deepcopy(r)
-        c["obs"]["blocks"] = c["obs"]["blocks"] + [{"q": 0, "prelude": []}, {"q": 0, "prelude": []}]
+        c["obs"]["blocks"] = c["obs"]["blocks"] + [{"alts": []}, {"alts": []}]
         nid += 1
         c["id"] = nid
         kinds[nid] = "two foreign blocks appended to standard output"
